@@ -2,6 +2,7 @@ package desync
 
 import (
 	gnutar "archive/tar"
+	"fmt"
 	"io"
 	"io/ioutil"
 	"os"
@@ -141,6 +142,18 @@ func (fs *TarReader) Next() (f *File, err error) {
 	h, err := fs.r.Next()
 	if err != nil {
 		return nil, err
+	}
+	// A PAX global header (the first record of every `git archive` stream) is not
+	// an entry of the tree, archive/tar hands it out for information only.
+	for h.Typeflag == gnutar.TypeXGlobalHeader {
+		if h, err = fs.r.Next(); err != nil {
+			return nil, err
+		}
+	}
+	// The content of a hard link lives under another name and a catar has no way
+	// to refer to it. Fail rather than write an empty file in its place.
+	if h.Typeflag == gnutar.TypeLink {
+		return nil, fmt.Errorf("%s: hard links are not supported", h.Name)
 	}
 
 	info := h.FileInfo()
